@@ -584,7 +584,8 @@ LoadOps ==
     \cup {L("csv", p, 1, "truncate", a) : p \in {"annotations", "manifest", "dataset"}, a \in {0, 3, 5, 8}}
     \cup {L("csv", p, 1, "replace", a) : p \in {"annotations", "dataset", "manifest"}, a \in 0..9}
     \cup {L("csv", p, 1, o, 0) : p \in {"annotations", "manifest", "dataset"}, o \in {"empty", "delete_file"}}
-    \cup {L("csv", "annotations", 1, "bitflip", a) : a \in 0..9}
+    \cup {L("csv", p, 1, "bitflip", a) : p \in {"annotations", "dataset", "manifest"}, a \in 0..9}
+    \cup {L("csv", "annotations", 1, "replace", a) : a \in 10..17}
 
 \* C10: data search by set / key / value test, through the store and through the dataset
 FindOps == {RO("FindData", [set |-> sk[1], key |-> sk[2], op |-> ov[1], v |-> ov[2], via |-> via]) :
